@@ -206,6 +206,7 @@ func runQuerySide(c *ctx, which string) {
 		"C20: terminal state vs the Lean cursor model and the property; C21: handles, semaphore, goroutines; C22: concurrent reads vs the cap with a stalled query; C23/C24: stats and read extents vs the Lean read plan. " +
 		"Non-trivial = the query had at least one candidate block; distinct by (population, query, schedule)"
 	r := NewRng(c.seed, 2000)
+	directedQuerySide(c, NewRng(c.seed, 2001), which)
 	pops := 4 * c.scale
 	for pi := 0; pi < pops; pi++ {
 		h := NewHistory(r)
